@@ -46,13 +46,14 @@ func firstField(s *rulegen.Spec) string {
 
 func safeForText(s *rulegen.Spec) bool {
 	// The line is written with the harness's own POSIX single-quote quoting, so any byte string can be
-	// an argument. Excluded: empty values, NUL, and blanks at either end (the flag parser trims blanks
-	// around list items and before the operator by design); keys must not contain the list separator.
+	// an argument. Excluded: empty values, NUL, and - for keys and watch paths - blanks at either end (the flag
+	// parser trims blanks around list items by design); keys must not contain the list separator.
 	ok := func(v string) bool {
 		return v != "" && strings.IndexByte(v, 0) < 0 && strings.TrimSpace(v) == v
 	}
 	for _, f := range s.Filters {
-		if f.Str && !ok(f.RHS) {
+		// a filter value is everything after the operator, blanks at either end included
+		if f.Str && (f.RHS == "" || strings.IndexByte(f.RHS, 0) >= 0) {
 			return false
 		}
 		// "f<" + "=x" reads as f <= x: the text form cannot express a value that starts with '=' after <, > or &
@@ -279,7 +280,7 @@ func c06Run(c *mon.Ctx) {
 	n := c.Pick(60_000, 20_000_000)
 	c.ForEach(n, func(w, i int) {
 		r := c.Rand(2, uint64(i))
-		o := &rulegen.Opts{WatchDir: dir, WatchFile: file, HostileStrings: i%4 == 0, KeyVariants: true, AllLast: true}
+		o := &rulegen.Opts{WatchDir: dir, WatchFile: file, HostileStrings: i%4 == 0, KeyVariants: true, AllLast: true, EdgeBlanks: true}
 		run(rulegen.Random(r, o))
 	})
 	c.Require("struct_route_ok", 1000)
